@@ -29,7 +29,8 @@ L1 == <<
     "> -|-", "*a*", "`c", "<b>x</b> \"q\"", "  > ---", "1. > - x",
     "\t\t- t",
     "```{u+000c}", "~~~ &#x3000;", "[a]: /u \"t&#10;u\"", "> [a]: /u \"x&NewLine;y\"", "- [a]: /u 'p\\\nq'", "```{u+00a0}x",
-    "  - > q", "   > - r", "  1. > s", "    > t"
+    "  - > q", "   > - r", "  1. > s", "    > t",
+    "||a|", "|a||"
 >>
 L1Core == {1, 5, 8, 10, 13, 15, 22, 23, 30, 33, 39, 45, 47, 53, 60, 72, 76, 82, 84, 90, 95}
 L2 == <<
